@@ -39,6 +39,7 @@ class Job:
         self.fn, self.args, self.future = fn, args, future
         self.phase = 'queued'         # queued | pre | read | called | done — advanced by the schedule thread only
         self.at = None                # gate the worker thread is at (set by the worker): 'lock' | 0 | 1
+        self.seen_at = None           # last gate arrival the schedule thread has consumed
         self.launched = False
         self.finished = False         # set by the worker thread
         self.gated = False
@@ -319,6 +320,7 @@ class SvcBench:
                 job.phase = 'done'
                 return {'moved': True, 'ran_through': True}
             job.phase = 'pre'            # at the lock gate (or, if the code takes no lock, already at the listener)
+            job.seen_at = job.at         # the worker is parked there: the gate whose arrival we have consumed
             self.exec.start_order.append(job)
             return {'moved': True}
         if k == 'taskRead':
@@ -327,7 +329,10 @@ class SvcBench:
                 return {'moved': False}
             job = w[op['k']]
             contended = len(self.exec.holders()) > 0
-            if job.at == 'lock':
+            # decide on what THIS thread has seen (job.seen_at), never on job.at: the worker may already have moved on
+            # (a task that was blocked on the lock arrives at the listener by itself once the lock is free) and its
+            # arrival must still be consumed here, or the next step would take it for its own
+            if job.seen_at == 'lock':
                 job.release['lock'].set()
                 if not job.event.acquire(timeout=BLOCK_PROBE if contended else WAIT):
                     if not contended:
@@ -336,6 +341,7 @@ class SvcBench:
                 if job.finished:
                     job.phase = 'done'
                     return {'moved': True, 'ran_through': True}
+                job.seen_at = job.at
             job.phase = 'read'
             self.exec.hold_order.append(job)
             return {'moved': True}
